@@ -86,6 +86,10 @@ def _check_one(i):
             break
     res['z3'], res['z3_s'] = str(r), round(tz, 3)
     text = None
+    if os.environ.get('PYVC_FAST') and r == z3.unknown:
+        res['verdict'] = 'unknown'
+        res['backend'] = None
+        return res
     if r == z3.unknown or both:
         text = _smt2(_BG + ob.assumptions, ob.goal)
         c, tc = _cvc5(text, min(cbudget, 10000))
